@@ -1,6 +1,6 @@
 #!/bin/bash
 cd /verif
-for C in C02 C03 C04 C05 C08 C10 C11 C12 C13; do
+for C in C09 C01 C06 C07 C15 C16 C18 C19; do
   for X in A B; do
     P=/tmp/wt8_$C/_out/$X/patch.diff
     [ -f $P ] || continue
